@@ -17,12 +17,13 @@ import (
 // ---------------------------------------------------------------- engine
 
 type fnInfo struct {
-	idx  map[ssa.Value]int
-	n    int
-	name string
-	intr intrinsicFn
-	pdom map[*ssa.BasicBlock]*ssa.BasicBlock // immediate post-dominators (lazy)
-	pure map[*ssa.BasicBlock]int8            // 0 unknown, 1 pure, 2 impure
+	idx      map[ssa.Value]int
+	n        int
+	name     string
+	intr     intrinsicFn
+	pdom     map[*ssa.BasicBlock]*ssa.BasicBlock // immediate post-dominators (lazy)
+	pure     map[*ssa.BasicBlock]int8            // 0 unknown, 1 pure, 2 impure
+	hasDefer bool
 }
 
 type intrinsicFn func(e *Engine, fn *ssa.Function, args []Val) Val
@@ -49,6 +50,9 @@ type workItem struct {
 }
 
 type Engine struct {
+	panics  []*panicState   // Go panics currently unwinding through frames with deferred calls
+	pools   map[*Cell][]Val // sync.Pool contents (per path)
+	wraps   map[*Cell]Iface // error cell -> the error it wraps (fmt.Errorf with %w; per path)
 	prog    *ssa.Program
 	sizes   types.Sizes
 	tf      *TermFactory
@@ -89,24 +93,24 @@ type Engine struct {
 	ifDepth   int
 
 	// cumulative statistics
-	funcsSeen   map[string]bool
-	stubsSeen   map[string]bool
-	nDecideIv   int // conditions decided by constant folding / intervals
-	nDecideMod  int // branch sides shown feasible by the cached model
-	nIfConv     int
-	totalSteps  int64
+	funcsSeen  map[string]bool
+	stubsSeen  map[string]bool
+	nDecideIv  int // conditions decided by constant folding / intervals
+	nDecideMod int // branch sides shown feasible by the cached model
+	nIfConv    int
+	totalSteps int64
 }
 
 func (e *Engine) unsupported(f string, a ...interface{}) {
-	panic(pathEnd{"unsupported", fmt.Sprintf(f, a...)})
+	panic(pathEnd{kind: "unsupported", msg: fmt.Sprintf(f, a...)})
 }
 
 func (e *Engine) goPanic(f string, a ...interface{}) {
-	panic(pathEnd{"panic", fmt.Sprintf(f, a...)})
+	panic(pathEnd{kind: "panic", msg: fmt.Sprintf(f, a...)})
 }
 
 func (e *Engine) K(w int, v uint64) *Term { return e.tf.K(w, v) }
-func (e *Engine) KB(b bool) *Term          { return e.tf.KB(b) }
+func (e *Engine) KB(b bool) *Term         { return e.tf.KB(b) }
 
 var sharedFnInfo sync.Map // *ssa.Function -> *fnInfo (immutable once stored)
 
@@ -133,6 +137,9 @@ func (e *Engine) info(fn *ssa.Function) *fnInfo {
 		for _, in := range b.Instrs {
 			if v, ok := in.(ssa.Value); ok {
 				add(v)
+			}
+			if _, ok := in.(*ssa.Defer); ok {
+				fi.hasDefer = true
 			}
 		}
 	}
@@ -627,7 +634,7 @@ func (e *Engine) decide(c *Term) bool {
 		e.assume(nc)
 		return false
 	}
-	panic(pathEnd{"infeasible", "both sides unsat"})
+	panic(pathEnd{kind: "infeasible", msg: "both sides unsat"})
 }
 
 // chooseInt forks over lo..hi without a solver (harness-level choice).
@@ -693,7 +700,7 @@ func (e *Engine) concretize(t *Term, what string) int {
 		block = e.tf.And(block, e.tf.Not(e.tf.Eq(t, e.K(w, v))))
 	}
 	if len(vals) == 0 {
-		panic(pathEnd{"infeasible", "concretize"})
+		panic(pathEnd{kind: "infeasible", msg: "concretize"})
 	}
 	if len(vals) >= maxConcretize {
 		e.unsupported("concretize %s: more than %d values", what, maxConcretize)
@@ -1019,6 +1026,13 @@ func (e *Engine) call(fn *ssa.Function, args []Val, bind []Val) Val {
 		e.stubsSeen[fi.name] = true
 		return fi.intr(e, fn, args)
 	}
+	return e.callBody(fn, args, bind)
+}
+
+// callBody executes the function's own SSA (also used by intrinsics that only cover
+// part of a function's domain).
+func (e *Engine) callBody(fn *ssa.Function, args []Val, bind []Val) Val {
+	fi := e.info(fn)
 	if fn.Blocks == nil {
 		e.unsupported("no body: %s", fi.name)
 	}
@@ -1026,7 +1040,7 @@ func (e *Engine) call(fn *ssa.Function, args []Val, bind []Val) Val {
 		e.funcsSeen[fi.name] = true
 	}
 	if len(e.stack) > 400 {
-		panic(pathEnd{"budget", "call depth > 400 in " + fi.name})
+		panic(pathEnd{kind: "budget", msg: "call depth > 400 in " + fi.name})
 	}
 	if e.run.Trace {
 		fmt.Printf("%*scall %s\n", len(e.stack)*2, "", fi.name)
@@ -1045,7 +1059,12 @@ func (e *Engine) call(fn *ssa.Function, args []Val, bind []Val) Val {
 	fr := &frame{fn: fn, fi: fi, env: env}
 	copy(fr.env, args)
 	copy(fr.env[len(fn.Params):], bind)
-	ret := e.runFrame(fr)
+	var ret Val
+	if fi.hasDefer {
+		ret = e.runFrameDeferred(fr, e.sp)
+	} else {
+		ret = e.runFrame(fr)
+	}
 	e.stack = e.stack[:len(e.stack)-1]
 	if len(savedArena) == len(e.arena) {
 		e.sp = sp
@@ -1055,9 +1074,69 @@ func (e *Engine) call(fn *ssa.Function, args []Val, bind []Val) Val {
 	return ret
 }
 
-func (e *Engine) runFrame(fr *frame) Val {
+// panicState: a Go panic that is unwinding through a frame with deferred calls.
+type panicState struct {
+	val       Val
+	msg       string
+	recovered bool
+}
+
+// runFrameDeferred runs a frame of a function that has deferred calls: a Go panic
+// raised below it runs the pending deferred calls; if one of them calls recover the
+// function returns normally through its Recover block, otherwise the panic goes on.
+func (e *Engine) runFrameDeferred(fr *frame, frameEnd int) (ret Val) {
+	depth := len(e.stack)
+	arenaLen := len(e.arena)
+	defer func() {
+		r := recover()
+		if r == nil {
+			return
+		}
+		pe, ok := r.(pathEnd)
+		if !ok || pe.kind != "panic" || len(fr.defers) == 0 {
+			panic(r)
+		}
+		e.stack = e.stack[:depth]
+		if len(e.arena) == arenaLen {
+			e.sp = frameEnd
+		}
+		ps := &panicState{val: pe.val, msg: pe.msg}
+		e.panics = append(e.panics, ps)
+		for len(fr.defers) > 0 {
+			d := fr.defers[len(fr.defers)-1]
+			fr.defers = fr.defers[:len(fr.defers)-1]
+			e.runDeferred(d)
+		}
+		e.panics = e.panics[:len(e.panics)-1]
+		if !ps.recovered {
+			panic(r)
+		}
+		if fr.fn.Recover != nil {
+			ret = e.runFrameFrom(fr, fr.fn.Recover)
+			return
+		}
+		// no named results: the zero values are returned
+		res := fr.fn.Signature.Results()
+		switch res.Len() {
+		case 0:
+			ret = nil
+		case 1:
+			ret = e.zero(res.At(0).Type())
+		default:
+			tp := make(Tuple, res.Len())
+			for i := range tp {
+				tp[i] = e.zero(res.At(i).Type())
+			}
+			ret = tp
+		}
+	}()
+	return e.runFrame(fr)
+}
+
+func (e *Engine) runFrame(fr *frame) Val { return e.runFrameFrom(fr, fr.fn.Blocks[0]) }
+
+func (e *Engine) runFrameFrom(fr *frame, b *ssa.BasicBlock) Val {
 	fn := fr.fn
-	b := fn.Blocks[0]
 	skipPhi := false
 	for {
 		var next *ssa.BasicBlock
@@ -1092,7 +1171,7 @@ func (e *Engine) runFrame(fr *frame) Val {
 		for _, in := range b.Instrs[nphi:] {
 			e.steps++
 			if e.steps > e.maxSteps {
-				panic(pathEnd{"budget", "instruction budget exhausted in " + fn.String()})
+				panic(pathEnd{kind: "budget", msg: "instruction budget exhausted in " + fn.String()})
 			}
 			switch x := in.(type) {
 			case *ssa.Return:
@@ -1134,7 +1213,7 @@ func (e *Engine) runFrame(fr *frame) Val {
 				}
 			case *ssa.Panic:
 				v := e.get(fr, x.X)
-				e.goPanic("explicit panic in %s: %v", fn, e.describePanic(v))
+				panic(pathEnd{kind: "panic", msg: fmt.Sprintf("explicit panic in %s: %v", fn, e.describePanic(v)), val: v})
 			default:
 				if e.inInit {
 					e.execInit(fr, in)
@@ -1257,6 +1336,8 @@ func (e *Engine) callValue(f Val, args []Val) Val {
 		return e.call(f, args, nil)
 	case Closure:
 		return e.call(f.fn, args, f.bind)
+	case NativeFn:
+		return f(e, args)
 	case nil:
 		e.goPanic("runtime error: invalid memory address or nil pointer dereference (call of nil func) in %s", e.curFuncName())
 	}
@@ -1350,17 +1431,50 @@ func (e *Engine) builtin(name string, a []Val, c *ssa.CallCommon) Val {
 		}
 		return a[0]
 	case "min", "max":
-		x, y := a[0].(*Term), a[1].(*Term)
+		if isFloat(c.Args[0].Type()) || isString(c.Args[0].Type()) {
+			e.unsupported("builtin %s on %v", name, c.Args[0].Type())
+		}
 		_, signed, _ := intWidth(c.Args[0].Type())
 		op := OUlt
 		if signed {
 			op = OSlt
 		}
-		lt := e.tf.Bin(op, x, y)
-		if name == "min" {
-			return e.tf.Ite(lt, x, y)
+		x := a[0].(*Term)
+		for _, yv := range a[1:] {
+			y := yv.(*Term)
+			lt := e.tf.Bin(op, x, y)
+			if name == "min" {
+				x = e.tf.Ite(lt, x, y)
+			} else {
+				x = e.tf.Ite(lt, y, x)
+			}
 		}
-		return e.tf.Ite(lt, y, x)
+		return x
+	case "recover":
+		// effective in a deferred call while a panic unwinds through the deferring frame
+		if n := len(e.panics); n > 0 && !e.panics[n-1].recovered {
+			ps := e.panics[n-1]
+			ps.recovered = true
+			if ps.val != nil {
+				return ps.val
+			}
+			return e.opaqueError(ps.msg) // runtime.Error: identity and text not modelled
+		}
+		return Iface{}
+	case "clear":
+		switch s := a[0].(type) {
+		case *MapObj:
+			if s != nil {
+				s.keys, s.vals = nil, nil
+			}
+			return nil
+		case Slice:
+			et := c.Args[0].Type().Underlying().(*types.Slice).Elem()
+			for i := 0; i < s.len; i++ {
+				e.store(s.arr.kids[s.off+i], e.zero(et))
+			}
+			return nil
+		}
 	case "print", "println":
 		return nil
 	case "String", "Slice": // unsafe.String(ptr, len), unsafe.Slice(ptr, len)
@@ -1878,6 +1992,11 @@ func (e *Engine) ptrAdd(c *Cell, off int64) *Cell {
 }
 
 func (e *Engine) binop(op token.Token, a, b Val, at, bt types.Type) Val {
+	if p, isP := a.(Ptr); isP && (op == token.XOR || op == token.OR || op == token.AND_NOT) {
+		if t, isT := b.(*Term); isT && t.IsConst() && t.C == 0 {
+			return p // x ^ 0 (abi.NoEscape, strings.Builder): the same pointer
+		}
+	}
 	if p, isP := a.(Ptr); isP && (op == token.ADD || op == token.SUB) {
 		if k, isT := b.(*Term); isT {
 			if !k.IsConst() {
@@ -2065,6 +2184,16 @@ func (e *Engine) floatBinop(op token.Token, a, b *Term) Val {
 			return e.K(32, uint64(math.Float32bits(float32(r))))
 		}
 		return e.K(64, math.Float64bits(r))
+	}
+	switch op {
+	case token.ADD:
+		return e.tf.Bin(OFAdd, a, b)
+	case token.SUB:
+		return e.tf.Bin(OFSub, a, b)
+	case token.MUL:
+		return e.tf.Bin(OFMul, a, b)
+	case token.QUO:
+		return e.tf.Bin(OFDiv, a, b)
 	}
 	e.unsupported("symbolic float arithmetic %v", op)
 	return nil
